@@ -102,21 +102,48 @@ pub fn record(output: &str) {
     let mut tries = 0;
     while made < n && tries < n * 20 {
         tries += 1;
-        let case = shape::make_case(&mut r, tries, 2 + tries % 3, tries % 4 == 3);
+        // every third robot has an asymmetric, non-wrapping J1 range that reaches beyond 180 degrees
+        let asym = tries % 3 == 1;
+        // (cluttered, so that the direct connection is often blocked and the planner has to sample)
+        // a pillar at arm's reach between start and goal: the stretched arm cannot sweep through it, the planner has to
+        // sample its way around (identity base, axial tool: case index even and divisible by 3)
+        let mid: Joints = [1.4, 1.1, 0.1, 0.0, 0.45, 0.0];
+        let fl = crate::oracle::chain(&rs_opw_kinematics::parameters::opw_kinematics::Parameters::irb2400_10(), &mid)[5].t;
+        // a radial slab made of thin plates 5 cm apart (collision detection works on surfaces: a link cube inside a solid
+        // box would not touch it), thicker than a planner step
+        let slab: Vec<crate::scene::WBox> = (0..6).map(|i| crate::scene::WBox { c: [fl[0] - 0.125 + 0.05 * i as f64, fl[1], fl[2]], h: [0.004, 0.4, 0.7] }).collect();
+        // a thin horizontal plate 3 cm above the sweep of the flange: inside the 7 cm safety distance, not touching
+        let plate_case = tries % 3 == 2;
+        let plate = crate::scene::WBox { c: [fl[0], fl[1], fl[2] + 0.07], h: [0.35, 0.35, 0.004] };
+        // (every second slab case keeps a 7 cm safety distance to the environment)
+        let case = if asym { shape::make_case_with(&mut r, 6 * tries, 0, tries % 2 == 0, Some((0.15, 6.1)), &slab) }
+                   else if plate_case { shape::make_case_with(&mut r, 6 * tries, 0, true, None, &[plate]) }
+                   else { shape::make_case_with(&mut r, tries, 2 + tries % 3, tries % 4 == 3, None, &[]) };
         let kws = &case.kws;
         let pick_free = |r: &mut rand::rngs::StdRng| -> Option<Joints> {
             for _ in 0..40 {
-                let q: Joints = std::array::from_fn(|i| r.gen_range(case.from[i] * 0.7..case.to[i] * 0.7));
+                let q: Joints = std::array::from_fn(|i| if i == 0 && asym { r.gen_range(0.2..0.6) } else { r.gen_range(case.from[i] * 0.7..case.to[i] * 0.7) });
                 if !kws.collides(&q) { return Some(q); }
             }
             None
         };
-        let (Some(start), Some(goal)) = (pick_free(&mut r), pick_free(&mut r)) else { continue; };
+        let (start, goal) = if asym || plate_case {
+            // stretched arm on either side of the pillar
+            let s: Joints = [r.gen_range(0.3..0.7), r.gen_range(1.0..1.2), r.gen_range(0.0..0.2), 0.0, r.gen_range(0.3..0.6), 0.0];
+            let g: Joints = [r.gen_range(2.1..2.6), r.gen_range(1.0..1.2), r.gen_range(0.0..0.2), 0.0, r.gen_range(0.3..0.6), 0.0];
+            if kws.collides(&s) || kws.collides(&g) { continue; }
+            if std::env::var("VERIF_DEBUG").is_ok() { eprintln!("pillar/plate case {}: mid collides = {} details {:?} env {}", plate_case, kws.collides(&mid), kws.collision_details(&mid), kws.body.collision_environment.len()); }
+            (s, g)
+        } else {
+            let (Some(s), Some(g)) = (pick_free(&mut r), pick_free(&mut r)) else { continue; };
+            (s, g)
+        };
         made += 1;
         let step_deg = [3.0, 6.0, 12.0][made % 3];
         let planner = RRTPlanner { step_size_joint_space: (step_deg as f64).to_radians(), max_try: [2000, 300, 40][made % 3], debug: false };
-        for mode in ["plain", "stop-before", "stop-during"] {
-            let stop = Arc::new(AtomicBool::new(mode == "stop-before"));
+        let shared = Arc::new(AtomicBool::new(true));     // one flag raised once by the caller, guarding several calls
+        for mode in ["plain", "stop-before", "stop-during", "stop-before-again"] {
+            let stop = if mode == "stop-before" || mode == "stop-before-again" { shared.clone() } else { Arc::new(AtomicBool::new(false)) };
             let raiser = if mode == "stop-during" {
                 let s = stop.clone();
                 let delay = r.gen_range(0..3000u64);
@@ -124,6 +151,7 @@ pub fn record(output: &str) {
             } else { None };
             let res = guarded(|| planner.plan_rrt(&start, &goal, kws, &stop));
             if let Some(h) = raiser { let _ = h.join(); }
+            let mode = if mode == "stop-before-again" { "stop-before" } else { mode };
             let mut e = json!({"ev": "rrtplan", "mode": mode, "step_au": rad2au(planner.step_size_joint_space), "max_try": planner.max_try,
                 "start": au6(&start), "goal": au6(&goal), "from": au6(&case.from), "to": au6(&case.to), "case": made, "ctor": case.ctor});
             match res {
